@@ -109,6 +109,8 @@ type Path struct {
 	mapOrderRev bool
 	relevant     map[*Var]bool
 	pending      map[*Var][]*Term
+	jsonText     bool                // JSON text layer enabled (vJSONText)
+	files        map[string][]Value // in-memory files written by the code under test
 	finalChecked bool
 	harnessRel   string // package directory of the harness relative to /repo
 	schedBudget  int // deviations from the default schedule explored (vSchedules)
